@@ -231,3 +231,12 @@ def run(ctx, rep):
     rep.rules_text.append("NESTBOUND: every decoder function that attaches a child to a self-owning structure (Metadata::AddSubMetadata) is dominated by a rejection `depth > constant`, where depth is a parameter or work-item field that is handed on as depth + 1")
     n_nb = run_nestbound(ctx, rep)
     rep.floor("decoder functions that attach nested children", n_nb, 1)
+    # a cursor into per-attribute side tables that stalls on one path pairs the next item with the previous
+    # item's (smaller) buffer: an out-of-bounds read on a valid stream (shared rule with C01 / C10)
+    from ..cursor import run_cursor
+    rep.rules_text.append("CURSOR (decode side): a loop-carried cursor that indexes a container inside a loop advances on every path back to the loop header")
+    fns = [ctx.F.fns[k] for k in sorted(set(ctx.reach("decode"))) if k in ctx.F.fns and "/draco/" in ctx.F.fns[k].file]
+    fns += [fn for fn in ctx.F.fns.values() if fn.name.startswith("verif_control::c10_cursor")]
+    n_real, n_nt, ctl = run_cursor(rep, fns)
+    rep.floor("CURSOR: loop-carried index uses on the decode paths", n_real, 100)
+    rep.control("CURSOR", "c10_cursor_bad", ctl.get("c10_cursor_bad") is False, "stalling cursor must be reported")
